@@ -62,6 +62,16 @@ Blame ==
   @@ "exit.how"   :> {"C06"}
   @@ "exit.client.await" :> {"C04", "C02"} @@ "exit.client.await_ref" :> {"C04", "C02"} @@ "exit.client.halt" :> {"C04", "C02"} @@ "exit.client.try_halt" :> {"C04", "C02"}
   @@ "exit.client.join" :> {"C17"} @@ "exit.client.call" :> {"C02"} @@ "exit.client.send" :> {"C02"}
+  \* (a client task that PANICS inside a library call: blamed on the property that speaks about that call)
+  @@ "exit.client.ping" :> {"C02"} @@ "exit.client.stop" :> {"C04"} @@ "exit.client.try_stop" :> {"C04"} @@ "exit.client.restart" :> {"C07"}
+  @@ "exit.client.consume" :> {"C17"} @@ "exit.client.consume_sync" :> {"C17"} @@ "exit.client.detach" :> {"C17"} @@ "exit.client.to_addr" :> {"C17", "C15"}
+  @@ "exit.client.upgrade" :> {"C15", "C05"} @@ "exit.client.downgrade" :> {"C15"} @@ "exit.client.clone" :> {"C15"} @@ "exit.client.sender" :> {"C15"}
+  @@ "exit.client.caller" :> {"C15"} @@ "exit.client.weak_sender" :> {"C15"} @@ "exit.client.weak_caller" :> {"C15"} @@ "exit.client.force_send" :> {"C15", "C05"}
+  @@ "exit.client.stopped" :> {"C14"} @@ "exit.client.running" :> {"C14"} @@ "exit.client.drop" :> {"C05"}
+  @@ "exit.client.from_registry" :> {"C08"} @@ "exit.client.setup" :> {"C08"} @@ "exit.client.register" :> {"C08"} @@ "exit.client.replace" :> {"C08"}
+  @@ "exit.client.unregister" :> {"C08"} @@ "exit.client.try_from_registry" :> {"C08", "C14"} @@ "exit.client.already_running" :> {"C08", "C14"}
+  @@ "exit.client.publish" :> {"C09"} @@ "exit.client.try_publish" :> {"C09"} @@ "exit.client.bpublish" :> {"C09"} @@ "exit.client.bsubscribe" :> {"C09"}
+  @@ "exit.client.bunsubscribe" :> {"C09"} @@ "exit.client.spawn" :> {"C03"}
   @@ "oe.actor.clone" :> {"C15"} @@ "oe.actor.downgrade" :> {"C15"} @@ "oe.actor.upgrade" :> {"C15"}
   @@ "oe.actor.sender" :> {"C15"} @@ "oe.actor.caller" :> {"C15"} @@ "oe.actor.weak_sender" :> {"C15"}
   @@ "oe.actor.weak_caller" :> {"C15"} @@ "oe.actor.to_addr" :> {"C15", "C17"} @@ "oe.actor.detach" :> {"C17"}
